@@ -432,6 +432,58 @@ def w_purity_determinism(ctx, rng, i):
         T.gv.clean()
 
 
+GIANT_BLOCKS = ["ADC.v", "ADC.n", "shortest_int", "compare", "LPF", "DM", "DAC"]
+
+
+def w_giant_records(ctx, rng, i):
+    """deterministic blocks on records beyond 2^23 samples (2^24 in the thorough tier): a switch to a sampled / randomised / chunked
+    algorithm "for very long records" must not draw from numpy's global RNG nor make the result depend on its state."""
+    name = GIANT_BLOCKS[i % len(GIANT_BLOCKS)]
+    n = (2 ** 23 if ctx.tier == "quick" or i >= len(GIANT_BLOCKS) else 2 ** 24) + 8
+    with core.quiet():
+        T.gv.clean()
+        T.gv(sps=8, R=1e9)
+    v = rng.normal(0, 1, n)
+    if name == "ADC.v":
+        fn = lambda: D.ADC(T.electrical_signal(v), n=6)
+    elif name == "ADC.n":
+        fn = lambda: D.ADC(T.electrical_signal(v), n=4, otype="n")
+    elif name == "shortest_int":
+        fn = lambda: U.shortest_int(v, 99.0)
+    elif name == "compare":
+        fn = lambda: T.electrical_signal(v) > 0.25
+    elif name == "LPF":
+        fn = lambda: D.LPF(T.electrical_signal(v), 0.2 * T.gv.fs)
+    elif name == "DM":
+        fn = lambda: D.DM(T.optical_signal(v + 0j), 20.0)
+    else:
+        bits = (v[: n // 8] > 0).astype(np.uint8)
+        fn = lambda: D.DAC(bits, 0.0, 1.0, "rz")
+    seed = int(rng.integers(2 ** 31))
+    ctx.describe(function=name, samples=n, numpy_seed=seed)
+    d0 = core.digest(v)
+    np.random.seed(seed)
+    st0 = np.random.get_state()
+    with core.quiet():
+        r1 = fn()
+    st1 = np.random.get_state()
+    consumed = not (st1[0] == st0[0] and np.array_equal(st1[1], st0[1]) and st1[2:] == st0[2:])
+    ctx.check("det.no_draw", not consumed, f"{name} on a record of {n} samples consumed random numbers")
+    d1 = result_digest(r1)
+    del r1
+    with core.quiet():
+        np.random.seed(seed + 777)
+        np.random.random(17)
+        r2 = fn()
+    ctx.check("det.any_state", result_digest(r2) == d1, f"{name} on a record of {n} samples gives different results under a different random state")
+    del r2
+    ctx.check("pure.args_unchanged", core.digest(v) == d0, f"{name} changed the sample data of its {n}-sample argument")
+    ctx.case(("giant", name, n), sample={"function": name, "samples": n})
+    ctx.bin("giant.function", name)
+    with core.quiet():
+        T.gv.clean()
+
+
 def w_history_independence(ctx, rng, i):
     """deterministic pool executed in a random order (with random draws and stochastic blocks interleaved): every output equals its canonical digest."""
     sps = 8
@@ -594,6 +646,7 @@ WORKLOADS = [
     Workload("history", w_history, 4000, 200000),
     Workload("purity_determinism", w_purity_determinism, 1100, 22000, budget=120),
     Workload("history_independence", w_history_independence, 40, 800, budget=300),
+    Workload("giant_records", w_giant_records, len(GIANT_BLOCKS), 2 * len(GIANT_BLOCKS), budget=600, exhaustive=True),
 ]
 
 
